@@ -32,8 +32,6 @@ def with_units(number, units):
     """
     if number is None:
         return None
-    if is_zero(number):
-        return number
     return number*eval_qty(units)
 
 
